@@ -4,3 +4,4 @@ pub mod lut;
 pub mod pdu;
 pub mod pix;
 pub mod rle;
+pub mod annex_f;
